@@ -217,9 +217,15 @@ class IDP(IdentityProvider):
 class Driven:
     """one real connection + the bookkeeping needed to report like the model"""
 
+    # server ids rotate over the interesting values: 0 (the first connection id is 0, a falsy but valid id), a multiple
+    # of 2^16, the largest prefix, ordinary ones
+    SERVER_IDS = [5, 0, 65535, 1, 65536, 513]
+    _n = 0
+
     def __init__(self, dep: bool):
         self.sess = PlanSession()
-        self.ctl = LocalControl(server_id=5)
+        Driven._n += 1
+        self.ctl = LocalControl(server_id=Driven.SERVER_IDS[Driven._n % len(Driven.SERVER_IDS)])
         self.srv = mkserver([self.sess], control=self.ctl, identity_provider=IDP())
         self.dep = dep
         self.caps = BASE | (C.CLIENT_DEPRECATE_EOF if dep else 0)
